@@ -17,10 +17,10 @@ func init() {
 	register(&propDef{
 		ID:    "C19",
 		Title: "Admin operations reach the right broker and report its verdict",
-		Explain: "Decides: retryOnError calls the operation before any return, whatever Admin.Retry.Max is (C19.attempt); each controller-bound operation sends its request to the broker returned by Controller() inside the retried closure, refreshes the controller on NOT_CONTROLLER and returns an error the retry predicate recognises (C19.controller); success (nil) is returned only when the item is present and its error code is ErrNoError (C19.verdict); leader/coordinator-bound operations take their broker from Leader()/Coordinator(), per item when they span several (C19.routing); " +
+		Explain: "Decides: retryOnError calls the operation before any return, whatever Admin.Retry.Max is (C19.attempt); the retried operation carries no state from one attempt to the next — every variable it both writes and reads is its own or re-initialised first — so a later clean acknowledgement is not overruled by an earlier attempt's error (C19.attempt-local); each controller-bound operation sends its request to the broker returned by Controller() inside the retried closure, refreshes the controller on NOT_CONTROLLER and returns an error the retry predicate recognises (C19.controller); success (nil) is returned only when the item is present and its error code is ErrNoError (C19.verdict); leader/coordinator-bound operations take their broker from Leader()/Coordinator(), per item when they span several (C19.routing); " +
 			"every constant request version stored anywhere in the library is guarded by a configured-version test that implies the version the request type itself requires, so Broker.send cannot refuse it with ErrUnsupportedVersion (C19.version); the fan-out operations pair every WaitGroup.Add with a Done (C12.pairing, shared). " +
 			"NOT covered: number of controller moves versus Retry.Max at run time, the brokers' verdicts themselves.",
-		Rules: []func(*Ctx){c19Attempt, c19Controller, c19Verdict, c19Routing, c19Version, c12Pairing},
+		Rules: []func(*Ctx){c19Attempt, c19AttemptLocal, c19Controller, c19Verdict, c19Routing, c19Version, c12Pairing},
 	})
 }
 
@@ -40,6 +40,38 @@ func c19Attempt(c *Ctx) {
 	it, path := reg.MustPrecede(callFn, func(it Item) bool { return IsReturn()(it) && !IsRecoverBlock(it.In.Block()) })
 	c.Check(it.IsZero() && len(reg.Find(callFn)) > 0, rule, fn, "attempt-before-return", it.Instr(), "the operation is attempted at least once before retryOnError returns",
 		"retryOnError can return without ever calling the operation (Admin.Retry.Max = 0): success is reported although nothing was sent", path)
+}
+
+// c19AttemptLocal: a captured variable that the retried closure writes and also reads survives from one
+// attempt to the next (an error list, a flag); the verdict of the acknowledged attempt then depends on
+// earlier, superseded attempts.
+func c19AttemptLocal(c *Ctx) {
+	p := c.P
+	rule := "C19.attempt-local"
+	c.Doc(rule, "every closure passed to retryOnError: each captured variable (or captured pointer's cell) that the closure stores into is never read by the closure, unless every read is preceded on every path from the closure's entry by one of the closure's own stores (re-initialised per attempt)")
+	c.Floor(rule, 4)
+	hosts, ops := p.retriedClosures()
+	for i, op := range ops {
+		bad := ""
+		var at ssa.Instruction
+		for _, fv := range op.FreeVars {
+			isStore := func(it Item) bool { st, ok := it.In.(*ssa.Store); return ok && st.Addr == ssa.Value(fv) }
+			isLoad := func(it Item) bool {
+				u, ok := it.In.(*ssa.UnOp)
+				return ok && u.Op == token.MUL && u.X == ssa.Value(fv)
+			}
+			fi := Info(op)
+			if len(fi.Find(isStore)) == 0 {
+				continue
+			}
+			if it, _ := WholeFn(op).MustPrecede(isStore, isLoad); !it.IsZero() {
+				bad = fv.Name()
+				at = it.Instr()
+			}
+		}
+		c.Check(bad == "", rule, hosts[i], "no-state-across-attempts", at, "the retried operation reads no captured variable it also writes (each attempt decides on its own response only)",
+			"the retried operation writes and reads the captured variable `"+bad+"`, which lives across attempts: what an earlier attempt recorded (e.g. a NOT_CONTROLLER error) overrules the later attempt's acknowledgement, or the other way round", nil)
+	}
 }
 
 // retriedClosures: the closures passed as operation to retryOnError, with their host.
